@@ -76,6 +76,16 @@ func factsC14() {
 		`obj := bus.NewBasicObject(&stb, stb.metaObject(), stb.onPropertyChange)`))
 	emitBool("f_setproperty_uid_in_meta_properties", strings.Contains(c14RawText("bus/object.go", "objectImpl", "SetProperty"),
 		`property, ok := o.meta.Properties[idValue.Value()]`))
+	// the optional features that wrap the channel of an incoming message (PropertySubs.v: SAux is transparent,
+	// and a registration made through a wrapper is the registration of the connection behind it): a wrapper
+	// made for THAT message, which hands every frame to the channel it wraps; the entry a closer forgets is
+	// found by (user id, endpoint)
+	emitStr("f_c14_tracer_text", normText("bus/object.go", "objectImpl", "Tracer"))
+	emitStr("f_c14_statchannel_send_text", normText("bus/channel.go", "statChannel", "Send"))
+	emitStr("f_c14_tracedchannel_send_text", normText("bus/channel.go", "tracedChannel", "Send"))
+	emitStr("f_c14_forgetsignaluser_text", normText("bus/signal.go", "signalHandler", "forgetSignalUser"))
+	emitN("f_action_enablestats", c14ActionOf("p.EnableStats"))
+	emitN("f_action_enabletrace", c14ActionOf("p.EnableTrace"))
 	emitN("f_action_registerevent", c14ActionOf("p.RegisterEvent"))
 	emitN("f_action_unregisterevent", c14ActionOf("p.UnregisterEvent"))
 	emitN("f_action_property", c14ActionOf("p.Property"))
